@@ -33,6 +33,21 @@ def schemeChar (c : Char) : Bool := isAlphaC c || isDigitC c || c == '+' || c ==
 
 def isDelim (c : Char) : Bool := c == '/' || c == '?' || c == '#'
 
+/-- the two bracket tests of `urlsplit` on the netloc: False = ValueError
+    ("Invalid IPv6 URL", or `_check_bracketed_host` raised). -/
+def bracketsOk (v6ok : Str → Bool) (netloc : Str) : Bool :=
+  let ob := netloc.contains '['
+  let cb := netloc.contains ']'
+  if (ob && !cb) || (cb && !ob) then false
+  else if ob && cb then v6ok (partition ']' (partition '[' netloc).2.2).1
+  else true
+
+/-- `url.split(c, 1)` guarded by `c in url`: (before, after) or (url, ""). -/
+def cut (c : Char) (url : Str) : Str × Str :=
+  match partition c url with
+  | (a, true, b) => (a, b)
+  | (a, false, _) => (a, [])
+
 /-- `urlsplit(url, scheme)`; `v6ok` = `_check_bracketed_host` does not raise. -/
 def urlsplit (v6ok : Str → Bool) (url scheme : Str) : Except Exn Split :=
   -- i = url.find(':'); if i > 0 and url[0].isalpha() and all scheme chars: split the scheme off
@@ -49,30 +64,17 @@ def urlsplit (v6ok : Str → Bool) (url scheme : Str) : Except Exn Split :=
     | '/' :: '/' :: body =>
       let netloc := body.takeWhile (fun c => !isDelim c)
       let rest := body.dropWhile (fun c => !isDelim c)
-      let ob := netloc.contains '['
-      let cb := netloc.contains ']'
-      if (ob && !cb) || (cb && !ob) then .error .valueError          -- "Invalid IPv6 URL"
-      else if ob && cb then
-        let bracketed := (partition ']' (partition '[' netloc).2.2).1
-        if v6ok bracketed then .ok (netloc, rest) else .error .valueError
-      else .ok (netloc, rest)
+      if bracketsOk v6ok netloc then .ok (netloc, rest) else .error .valueError
     | _ => .ok ([], url)
   match step with
   | .error e => .error e
   | .ok (netloc, url) =>
-    -- if '#' in url: url, fragment = url.split('#', 1)
-    let (url, fragment) := match partition '#' url with
-      | (a, true, b) => (a, b)
-      | (a, false, _) => (a, [])
-    -- if '?' in url: url, query = url.split('?', 1)
-    let (url, query) := match partition '?' url with
-      | (a, true, b) => (a, b)
-      | (a, false, _) => (a, [])
+    let (url, fragment) := cut '#' url        -- if '#' in url: url, fragment = url.split('#', 1)
+    let (url, query) := cut '?' url           -- if '?' in url: url, query = url.split('?', 1)
     .ok ⟨scheme, netloc, url, query, fragment⟩
 
-/-- `_hostinfo` → (hostname text, port text or None) -/
-def hostinfo (netloc : Str) : Str × Option Str :=
-  let hi := (rpartition '@' netloc).2.2
+/-- `_hostinfo` after the user-info has been removed. -/
+def hostinfoOf (hi : Str) : Str × Option Str :=
   let (_, haveBr, bracketed) := partition '[' hi
   let (hostname, port) :=
     if haveBr then
@@ -82,6 +84,10 @@ def hostinfo (netloc : Str) : Str × Option Str :=
       let (h, _, p) := partition ':' hi
       (h, p)
   (hostname, if port.isEmpty then none else some port)
+
+/-- `_hostinfo` → (hostname text, port text or None) -/
+def hostinfo (netloc : Str) : Str × Option Str :=
+  hostinfoOf (rpartition '@' netloc).2.2
 
 /-- `.hostname`: None when empty; lower-cased up to a `%` (zone id kept as is). -/
 def hostname (netloc : Str) : Option Str :=
